@@ -2,14 +2,16 @@
 # Runs the quick checks of every claimed property whose anchored files a behaviour-preserving change touches,
 # with the change applied to /repo, and undoes it. Any exit != 0 is a false alarm of a check (to be analysed).
 # usage: tools/run_harmless.sh <dir containing */patch.diff> ...   -> appends to selftest/harmless.txt
+# HARMLESS_TREE=<scratch worktree of /repo>: patch that tree and check it through VERIF_REPO instead of /repo itself
 cd /verif
-[ -z "$(git -C /repo status --porcelain --untracked-files=no)" ] || { echo "/repo has uncommitted changes"; exit 2; }
+TREE=${HARMLESS_TREE:-/repo}
+[ -z "$(git -C $TREE status --porcelain --untracked-files=no)" ] || { echo "/repo has uncommitted changes"; exit 2; }
 mkdir -p selftest
 bad=0
 for d in "$@"; do
   for pd in "$d"/*/patch.diff; do
     [ -f "$pd" ] || continue
-    name=$(echo "$pd" | sed 's|/patch.diff||; s|.*/w3-||; s|/_harmless/|-|; s|.*/harmless/||')
+    name=$(echo "$pd" | sed 's|/patch.diff||; s|.*/w[0-9]*-||; s|/_harmless/|-|; s|.*/harmless/||')
     props=$(python3 - "$pd" <<'PY'
 import json,re,sys
 files=set(re.findall(r'^\+\+\+ b/(\S+)', open(sys.argv[1]).read(), re.M))
@@ -31,14 +33,14 @@ for f in files:
 print(' '.join(sorted(out)))
 PY
 )
-    if ! git -C /repo apply "$pd" 2>/dev/null; then echo "$name: patch does not apply" | tee -a selftest/harmless.txt; continue; fi
+    if ! git -C $TREE apply "$pd" 2>/dev/null; then echo "$name: patch does not apply" | tee -a selftest/harmless.txt; continue; fi
     line="$name [$(grep -c '^+++ ' "$pd") file(s)]:"
     for id in $props; do
-      VERIF_OUT=/var/tmp/verif-harmless-out ./check "$id" quick > /var/tmp/verif-harmless.log 2>&1; rc=$?
+      VERIF_REPO=$TREE VERIF_OUT=/var/tmp/verif-harmless-out ./check "$id" quick > /var/tmp/verif-harmless.log 2>&1; rc=$?
       line="$line $id=$rc"
       if [ $rc -ne 0 ]; then bad=1; cp /var/tmp/verif-harmless.log "/var/tmp/verif-harmless-$name-$id.log"; grep -E "^VIOLATION|class=|detail|HARNESS|BUILD|error" /var/tmp/verif-harmless.log | head -6; fi
     done
-    git -C /repo checkout -- .
+    git -C $TREE checkout -- .
     echo "$line" | tee -a selftest/harmless.txt
   done
 done
